@@ -329,3 +329,91 @@ pub fn eval_malformed(ns: (usize, usize, usize), seed: u64) -> CaseOut {
     }
     out
 }
+
+
+// ---------------------------------------------------------------------------------------------
+// Fiat–Shamir schedule of the argument against its model
+// ---------------------------------------------------------------------------------------------
+
+/// The schedule the argument must follow for n = 2^k terms (`P` = prover, `V` = verifier): the
+/// whole statement — bases1, bases2, res1, res2, in this order — is absorbed before the batching
+/// challenge is drawn, every round challenge is drawn after the two round messages, and the final
+/// scalar comes last. A challenge drawn before a value it must depend on is an adaptive-prover
+/// hole that no element-by-element corruption of an honest proof can show.
+fn schedule_model(st: &Statement, prover: bool) -> Vec<(vfam::rectrans::Kind, Option<Vec<u8>>)> {
+    use midnight_proofs::transcript::Hashable;
+    use vfam::rectrans::Kind;
+    let h = |c: &C| Some(<C as Hashable<blake2b_simd::State>>::to_bytes(c));
+    let mut m = vec![];
+    for b in st.bases1.iter().chain(st.bases2.iter()) {
+        m.push((Kind::Common, h(b)));
+    }
+    m.push((Kind::Common, h(&st.res1)));
+    m.push((Kind::Common, h(&st.res2)));
+    m.push((Kind::Squeeze, None));
+    let msg = if prover { Kind::Write } else { Kind::Read };
+    for _ in 0..st.scalars.len().trailing_zeros() {
+        m.push((msg.clone(), None));
+        m.push((msg.clone(), None));
+        m.push((Kind::Squeeze, None));
+    }
+    m.push((msg, None));
+    m
+}
+
+/// Runs the real prover and verifier under a recording transcript and compares the recorded
+/// event sequence with the model, event by event.
+pub fn eval_schedule(st: &Statement) -> CaseOut {
+    use vfam::rectrans::{new_log, RecordingTranscript};
+    type RT = RecordingTranscript<T>;
+    let mut out = CaseOut::batch();
+    let compare = |side: &str, log: &[vfam::rectrans::Event], out: &mut CaseOut| {
+        let model = schedule_model(st, side == "prover");
+        let mut first_bad: Option<(usize, String)> = None;
+        for i in 0..model.len().max(log.len()) {
+            let ok = match (model.get(i), log.get(i)) {
+                (Some((k, bytes)), Some(e)) => *k == e.kind && bytes.as_ref().map(|b| *b == e.bytes).unwrap_or(true),
+                _ => false,
+            };
+            if !ok {
+                first_bad = Some((i, format!("model {:?}, implementation {:?}", model.get(i).map(|m| &m.0), log.get(i).map(|e| &e.kind))));
+                break;
+            }
+        }
+        out.counter("fs_events_compared", model.len() as u64);
+        match first_bad {
+            None => out.eval(&format!("fs-schedule:{side}:conforms"), true),
+            Some((i, what)) => {
+                out.eval(&format!("fs-schedule:{side}:deviates"), true);
+                out.viol(Viol::new(
+                    format!("ipa:fs-schedule:{side}:deviates-from-model"),
+                    format!("event {i} of the {side}'s Fiat-Shamir schedule for {}: {what} (statement values absorbed / challenges drawn out of the modelled order)", st.name),
+                    json!({"statement": st.name, "event": i}),
+                ));
+            }
+        }
+    };
+    let log = new_log();
+    let proof = catch(|| {
+        let mut t = RT::init();
+        ipa_prove(&st.scalars, &st.bases1, &st.bases2, &st.res1, &st.res2, &mut t).map(|_| t.finalize())
+    });
+    let plog: Vec<vfam::rectrans::Event> = log.lock().unwrap().clone();
+    let Ok(Ok(proof)) = proof else {
+        out.eval("fs-schedule:prover-failed", false);
+        return out;
+    };
+    compare("prover", &plog, &mut out);
+    let log = new_log();
+    let ok = catch(|| {
+        let mut t = RT::init_from_bytes(&proof);
+        ipa_verify(&st.bases1, &st.bases2, &st.res1, &st.res2, &mut t).is_ok()
+    });
+    let vlog: Vec<vfam::rectrans::Event> = log.lock().unwrap().clone();
+    if ok != Ok(true) {
+        out.eval("fs-schedule:verifier-rejected-honest", false);
+        return out;
+    }
+    compare("verifier", &vlog, &mut out);
+    out
+}
